@@ -70,6 +70,11 @@ fn simpler_targets(t: &TSpec) -> Vec<TSpec> {
             }
         }
         TSpec::Tagged(_, inner) => v.push((**inner).clone()),
+        TSpec::Group { members, .. } => {
+            for m in members {
+                v.push(m.clone());
+            }
+        }
         TSpec::Own { kind, cont, leaves, ctor, poison } => {
             if *poison {
                 v.push(TSpec::Own { kind: *kind, cont: *cont, leaves: leaves.clone(), ctor: *ctor, poison: false });
